@@ -45,6 +45,11 @@ class AbstractDenseTimeOnlineInterpreter(AbstractOnlineInterpreter, DenseTimeInt
 
         return rob
 
+    def reset(self):
+        # the dense-time operations have no reset logic of their own:
+        # construct them anew, as set_ast does for a fresh monitor
+        self.set_ast(self.ast)
+
     def update_final(self, dataset):
         # check ast exists
         self.exist_ast()
